@@ -259,8 +259,8 @@ def run(res, info):
                 "rational abundances; reference = random ratios and = the current ratios; non-trivial = at least two elements")
     res.assumptions = ["the coupling matrix is non-singular (singular cases are counted and skipped)",
                        "a species without mass number (dust grain) weighs 1 in matrix and factor"]
-    n = 150 if res.tier == "quick" else 3000
-    nb = 12 if res.tier == "quick" else 150
+    n = 150 if res.tier == "quick" else 12000
+    nb = 12 if res.tier == "quick" else 400
     for i, sp in enumerate(FIXED):
         check_net(res, model, sp, rng, ("fixed", i), render=True)
     for i, sp in enumerate(FIXED[:3] if res.tier == "quick" else FIXED + GRAINS):
